@@ -9,9 +9,10 @@ use ldpc_toolbox::decoder::{Message, SentMessage};
 
 def build(tier, seed):
     items = []
-    degs_i8 = [1, 2, 3, 4, 6] if tier == "quick" else [1, 2, 3, 4, 5, 6, 8, 12]
-    degs_f = [1, 2, 4] if tier == "quick" else [1, 2, 3, 4, 6, 8]
+    degs_i8 = [1, 2, 3, 6] if tier == "quick" else [1, 2, 3, 4, 5, 6, 8, 12]
+    degs_f = [1, 2, 3] if tier == "quick" else [1, 2, 3, 4, 6]
     lay_degs = [2, 3] if tier == "quick" else [2, 3, 4, 5]
+    lay3_quick = ("Minstarapproxi8", "Aminstari8", "Minstarapproxi8JonesPartialHardLimitDeg1Clip", "Aminstari8JonesPartialHardLimitDeg1Clip")
     for t in arith.i8_types():
         n = t["name"]
         items.append((Harness("c05_quant_" + n, {"type": n, "input": "every f64 bit pattern (incl. NaN, inf)"}, 1.0, stubs="TABLE"),
@@ -24,8 +25,10 @@ def build(tier, seed):
                                   1.5 + 0.5 * d, stubs="TABLE"),
                           "crate::c05_var_i8!(c05_var_%s_d%d, %s, %s, %d, %d);" % (n, d, n, arith.cfg_expr(t), d, d + 3)))
         for d in lay_degs:
+            if tier == "quick" and d > 2 and n not in lay3_quick:
+                continue
             items.append((Harness("c05_lay_%s_d%d" % (n, d),
-                                  {"type": n, "degree": d, "input": "old check messages in [-127,127], variable LLRs with |v| <= 127*(deg+1)"},
+                                  {"type": n, "degree": d, "input": "old check messages in [-127,127], variable LLRs with |v| <= 25527 (= 127*(200+1))"},
                                   3.0 + d, stubs="TABLE"),
                           "crate::c05_layered_i8!(c05_lay_%s_d%d, %s, %d, %d);" % (n, d, n, d, d + 3)))
     # large degree: one per clipping variant (quick: 200 for the plain and the Jones+Deg1 variants)
@@ -44,9 +47,11 @@ def build(tier, seed):
             items.append((Harness("c05_var_%s_d%d" % (n, d), {"type": n, "degree": d, "input": "exact grid k/8, |k|<=2^20" if d == 1 else "small domain s/8, s in [-127,127] (all summation orders agree bit-for-bit)"}, 1.0 + d),
                           "crate::c05_var_f!(c05_var_%s_d%d, %s, %s, crate::macros::any_%s_%s, %d, %d);" % (n, d, n, f, f, dom, d, d + 3)))
         for d in lay_degs:
-            if t["base"] == "Aminstar" and tier == "quick" and d > 2:
+            if tier == "quick" and d > 2:
                 continue  # > 300 s per harness (float miter); thorough tier only
-            dom = "tiny" if (t["base"] == "Aminstar" and tier == "quick") else "small"
+            if tier == "thorough" and d > 3:
+                continue
+            dom = "tiny" if tier == "quick" else "small"
             txt = "s/8, s in [-7,7]" if dom == "tiny" else "s/8, s in [-127,127]"
             items.append((Harness("c05_lay_%s_d%d" % (n, d), {"type": n, "degree": d, "input": "domain %s; SURROGATE math on both sides" % txt}, 3.0 + d, stubs="SURROGATE"),
                           "crate::c05_layered_f!(c05_lay_%s_d%d, %s, %s, crate::macros::any_%s_%s, %d, %d);" % (n, d, n, f, f, dom, d, d + 3)))
@@ -54,7 +59,7 @@ def build(tier, seed):
         "functions": ["DecoderArithmetic::{input_llr_quantize, llr_hard_decision, llr_to_var_message, llr_to_var_llr, var_llr_to_llr, send_var_messages, send_check_messages, update_check_messages_and_vars} for each of the 24 arithmetic types (one harness per monomorphisation)",
                       "impl_8bitquant!::{new, lookup, clip}", "send_var_messages_no_clip"],
         "bounds": {"degrees_8bit_var": degs_i8, "degrees_float_var": degs_f, "degrees_layered": lay_degs,
-                   "large_degree": [list(x) for x in big], "unwind": "degree+3 per harness; table-construction loop 26 via --unwindset"},
+                   "large_degree": [list(x) for x in big], "float_layered": "quick: degree 2, domain s/8 with |s|<=7; thorough: degrees 2-3, |s|<=127", "unwind": "degree+3 per harness; table-construction loop 26 via --unwindset"},
         "outside": ["degrees not listed", "float sums off the exact grid (rounding-order dependent)",
                     "layered/flooding consistency for float types holds for the SURROGATE interpretation of tanh/atanh/ln/exp/ln_1p"],
         "stubs": ["TABLE (f64::exp, f64::ln_1p exact on the 128 table arguments)", "SURROGATE (float layered harnesses only)"],
